@@ -13,9 +13,18 @@ def no_big_sends(b):
     return not any(o["op"] in ("send", "probe") and o.get("big") for o in b["ops"])
 
 
+# an endpoint travels inside a message, is received (blocking, non-blocking or timed), some handle is dropped and a send
+# follows (then every sender is probed) - while an unrelated child process started right after the receipt lives on:
+# exhaustive after the prescribed prelude
+TRANSIT_STORY = ["new", "send", "recv", "drop", "send"]
+TRANSIT = {"name": "story-transit-bystander", "variant": "os", "mode": "thread", "bystander": True,
+           "gen": dict(agents=(0,), maxch=2, maxreg=0, maxslots=1, maxops=len(TRANSIT_STORY), story=TRANSIT_STORY)}
+
+
 def plans(tier):
     if tier == "quick":
         return [
+            TRANSIT,
             {"name": "bfs-1agent", "variant": "os", "mode": "thread",
              "gen": dict(failsends=True, agents=(0,), maxch=2, maxreg=0, maxslots=1, maxops=3), "filter": nontrivial},
             {"name": "bfs-2agents-process", "variant": "os", "mode": "process",
@@ -25,6 +34,9 @@ def plans(tier):
                          kinds=("typed", "bytes"), simulate=30, depth=100, tlcseed=chancheck.seed())},
         ]
     return [
+        TRANSIT, dict(TRANSIT, name="story-transit-bystander-memfd", variant="memfd"),
+        dict(TRANSIT, name="story-transit-any-bystander",
+             gen=dict(TRANSIT["gen"], story=["new", "send", "recv", "*", "*"])),
         {"name": "bfs-1agent-d4", "variant": "os", "mode": "thread",
          "gen": dict(failsends=True, agents=(0,), maxch=2, maxreg=0, maxslots=1, maxops=4), "filter": nontrivial},
         {"name": "bfs-2agents-process-d4", "variant": "os", "mode": "process",
